@@ -405,6 +405,28 @@ void c03_case(Ctx& c, Rng& r) {
         }
         sig = hx::mix(sig, hx::mix(kind, hx::mix(ek, must_reject)));
         vclk::advance(nanoseconds(static_cast<std::int64_t>(r.below(3 * NS))));
+        // a local lookup of a chunk the node holds, at a moment when the manifest it has cached for that chunk is expired or has
+        // less than the minimum TTL left (a shorter-lived manifest replaced a longer one, the cleanup tick has not run yet): that
+        // manifest must not change node state any more - in particular its key shares are not published again
+        if (r.chance(1, 2)) {
+            for (unsigned n = 0; n < 4; ++n) {
+                const auto cid = fx::chunk_id_n(n + 16 * static_cast<unsigned>(c.cur_case % 8));
+                const auto ck = chunk_id_to_string(cid);
+                const auto mit = f.node->manifest_cache_.find(ck);
+                if (mit == f.node->manifest_cache_.end() || !f.node->chunk_store_.chunks_.count(ck)) continue;
+                const auto left = mit->second.expires_at.time_since_epoch().count() - fx::system_ns();
+                if (left >= mn * NS) continue;
+                const auto before = f.node->dht_.shard_table_.find(ck);
+                const bool had = before != f.node->dht_.shard_table_.end();
+                const std::int64_t had_until = had ? before->second.expires_at.time_since_epoch().count() : 0;
+                (void)f.node->fetch_chunk(cid);
+                c.note("lookups.with-expired-or-nearly-expired-cached-manifest");
+                const auto after = f.node->dht_.shard_table_.find(ck);
+                if (after != f.node->dht_.shard_table_.end() && (!had || after->second.expires_at.time_since_epoch().count() > had_until))
+                    c.violation("C03:rejected-manifest:local-lookup-publishes-key-shares-of-expired-manifest",
+                                J().kv("manifest_remaining_ns", left).kv("min_ttl", mn).kv("had_record", had).kv("extended_by_ns", after->second.expires_at.time_since_epoch().count() - had_until).str());
+            }
+        }
     }
     // "expires no later than": walk the bounds in time order; just past each bound (with a tick in between, as the
     // daemon does every second) nothing derived from that chunk's manifests may still be live or served
